@@ -36,7 +36,7 @@ type c19Scenario struct {
 	Reqs    []c19Req `json:"reqs"`
 }
 
-var c19Endings = []string{"served", "served", "served", "served-head", "served-buffered", "404", "redirect", "tls-503", "paused-504", "stopped-503",
+var c19Endings = []string{"served", "served", "served", "served-hints", "served-head", "served-buffered", "404", "redirect", "tls-503", "paused-504", "stopped-503",
 	"target-502", "target-504", "target-truncated", "413", "500-overflow", "abort-waiting", "abort-download", "abort-upload", "upgrade"}
 
 func c19Gen(rng *rand.Rand, idx int) c19Scenario {
@@ -62,6 +62,8 @@ func c19Gen(rng *rand.Rand, idx int) c19Scenario {
 			if r.Method != "GET" {
 				r.Body = pick(rng, []int{0, 10, 5000})
 			}
+		case "served-hints":
+			r.Host = "plain.example"
 		case "served-head":
 			r.Host, r.Method = "plain.example", "HEAD"
 		case "served-buffered":
@@ -184,6 +186,8 @@ func c19Run(t *testing.T, run *Run, sc c19Scenario) {
 			req.Hdr = append(req.Hdr, [2]string{"X-Fault", "silence"})
 		case "target-truncated":
 			req.Hdr = append(req.Hdr, [2]string{"X-Fault", "short-body"})
+		case "served-hints":
+			req.Mode = "hints"
 		case "abort-waiting":
 			req.Lat, req.AbortAfter = 5*time.Second, time.Second
 		case "upgrade":
@@ -297,7 +301,7 @@ func c19Run(t *testing.T, run *Run, sc c19Scenario) {
 				return
 			}
 		default:
-			want := map[string]int{"served": 200, "served-head": 200, "served-buffered": 200, "404": 404, "redirect": 301, "tls-503": 503, "paused-504": 504, "stopped-503": 503, "target-502": 502, "target-504": 504, "413": 413, "500-overflow": 500}[r.Ending]
+			want := map[string]int{"served": 200, "served-hints": 200, "served-head": 200, "served-buffered": 200, "404": 404, "redirect": 301, "tls-503": 503, "paused-504": 504, "stopped-503": 503, "target-502": 502, "target-504": 504, "413": 413, "500-overflow": 500}[r.Ending]
 			if o.status != want {
 				fail("harness-expectation:"+r.Ending, "request %s (%s): client got status %d, scenario expected %d", r.ID, r.Ending, o.status, want)
 				return
@@ -312,7 +316,7 @@ func c19Run(t *testing.T, run *Run, sc c19Scenario) {
 			}
 		}
 		// configured extra headers, for requests that were handed to a target
-		if tgt != "" && (r.Ending == "served" || r.Ending == "served-buffered" || r.Ending == "served-head") {
+		if tgt != "" && (r.Ending == "served" || r.Ending == "served-hints" || r.Ending == "served-buffered" || r.Ending == "served-head") {
 			for _, h := range sc.LogReq {
 				key := "req_" + strings.ReplaceAll(strings.ToLower(h), "-", "_")
 				want := ""
